@@ -393,10 +393,10 @@ def classify_one(prop, spec, k, m, ev):
         uses = prog_rsz_uses(spec.get("prog", {}))
         if "aggregate" in uses:
             return "aggregate-of-random-size-list-stale-size"
-        if "foreach" in uses:
-            return "foreach-over-random-size-list-unguarded"
         if "member" in uses:
             return "membership-in-random-size-list-not-enforced"
+        if "foreach" in uses:
+            return "foreach-over-random-size-list-unguarded"
     if prop == "C20":
         if k == "earlier-variable-value-starved" and _f8("feasible-value-starved", m, ev):
             return "swizzle-pins-low-bits-only"
@@ -419,23 +419,23 @@ def classify_one(prop, spec, k, m, ev):
         return "dynamic-ref-binds-last-constructed-instance"
     # ---- lists (F27, F26, F9, F28)
     if prop in ("C04", "C02") and c is not None:
-        if k in ("spurious-solve-failure", "formula-unsat-but-ref-sat") and uses_on_random_size_list(c, "foreach"):
-            return "foreach-over-random-size-list-unguarded"
         if (k in ("value-violates-constraint", "unsat-returned-normally", "spurious-solve-failure")
                 and uses_on_random_size_list(c, "member")):
             return "membership-in-random-size-list-not-enforced"
         if (k in ("value-violates-constraint", "unsat-returned-normally", "spurious-solve-failure", "other-exception")
                 and uses_on_random_size_list(c, "aggregate")):
             return "aggregate-of-random-size-list-stale-size"
+        if k in ("spurious-solve-failure", "formula-unsat-but-ref-sat") and uses_on_random_size_list(c, "foreach"):
+            return "foreach-over-random-size-list-unguarded"
     if prop == "C04" and k in ("list-edit-mismatch", "list-views-disagree") and failed_call_before_on_random_size_list(spec, ev):
         return "failed-call-leaves-random-size-list-extended"
     # ---- empty collections (F20, F25)
-    if (k in ("unsat-returned-normally", "formula-mismatch", "value-violates-constraint", "spurious-solve-failure")
-            and c is not None and empty_collection_in(c)):
-        return "in-empty-collection-lowered-to-true"
     if (k in ("unsat-returned-normally", "formula-mismatch", "value-violates-constraint")
             and c is not None and aggregate_of_empty_list(c)):
         return "aggregate-of-empty-list-dropped"
+    if (k in ("unsat-returned-normally", "formula-mismatch", "value-violates-constraint", "spurious-solve-failure")
+            and c is not None and empty_collection_in(c)):
+        return "in-empty-collection-lowered-to-true"
     return None
 
 
